@@ -10,6 +10,7 @@ then behaves as ``BEHAVIOUR[0]`` says: return normally or raise an exception bui
 from __future__ import annotations
 
 import io
+import struct
 from decimal import Decimal
 from dataclasses import dataclass
 from enum import Enum
@@ -73,6 +74,7 @@ DC_BAD = {
     "zerorows": _blob(_DCS, [pa.array([], pa.int64()), pa.array([], pa.utf8())]),
     "missingfield": _blob(pa.schema([("x", pa.int64())]), [pa.array([1], pa.int64())]),
     "truncated-body": DC_GOOD[:-9],
+    "invalid-utf8": _blob(_DCS, [pa.array([1], pa.int64()), pa.StringArray.from_buffers(1, pa.py_buffer(struct.pack("<ii", 0, 1)), pa.py_buffer(b"\xff"))]),
 }
 
 ENUM_T = pa.dictionary(pa.int16(), pa.utf8())
